@@ -628,6 +628,223 @@ def _worst(*vs):
     return 'near' if 'near' in vs else ('far' if 'far' in vs else 'match')
 
 
+def _keyed_copy_loops(fn, fi, is_source):
+    """Loops that build a dict with exactly the keys of a mapping M accepted
+    by the predicate is_source(name node, loop): `D2 = {}` (the only binding of D2, dominating the loop), then
+    `for k, v in M.items(): D2[k] = <expr>` / `for k in M[.keys()]: D2[k] =
+    <expr>` with the store unconditional in the loop body, no exit from the
+    body, the key variable not rebound, and no other mutation of D2 anywhere
+    in the function (it is only indexed / read through get, items, keys,
+    values).  Yields (loop, Name node of M in the header, Name node of D2 in
+    the store, 'D2', the statement `D2 = {}`).  The loop form of `{k: <expr> for k, v in M.items()}`."""
+    parent = {}
+    for n in ast.walk(fn):
+        for c in ast.iter_child_nodes(n):
+            parent[c] = n
+    for lp in walk_local(fn):
+        if not isinstance(lp, ast.For) or lp.orelse:
+            continue
+        it, tg = lp.iter, lp.target
+        src = key = None
+        if isinstance(it, ast.Call) and isinstance(it.func, ast.Attribute) and not it.args and not it.keywords and \
+                isinstance(it.func.value, ast.Name):
+            if it.func.attr == 'items' and isinstance(tg, ast.Tuple) and len(tg.elts) == 2:
+                src, key = it.func.value, tg.elts[0]
+            elif it.func.attr == 'keys':
+                src, key = it.func.value, tg
+        elif isinstance(it, ast.Name):
+            src, key = it, tg
+        if not isinstance(key, ast.Name) or not is_source(src, lp):
+            continue
+        if any(isinstance(x, (ast.Break, ast.Continue, ast.Return, ast.Raise, ast.Yield, ast.YieldFrom)) for b in lp.body for x in ast.walk(b)):
+            continue
+        if any(isinstance(x, ast.Name) and x.id == key.id and isinstance(x.ctx, (ast.Store, ast.Del)) for b in lp.body for x in ast.walk(b)):
+            continue
+        st = [b for b in lp.body if isinstance(b, ast.Assign) and len(b.targets) == 1 and isinstance(b.targets[0], ast.Subscript)
+              and isinstance(b.targets[0].value, ast.Name) and isinstance(b.targets[0].slice, ast.Name) and b.targets[0].slice.id == key.id]
+        if len(st) != 1:
+            continue
+        base = st[0].targets[0].value
+        name = base.id
+        if name == src.id:
+            continue
+        inits = [a for a in assigns_to(fn, name)]
+        if sum(1 for x in ast.walk(fn) if isinstance(x, ast.Name) and x.id == name and isinstance(x.ctx, (ast.Store, ast.Del))) != 1:
+            continue
+        if len(inits) != 1 or not isinstance(inits[0], ast.Assign) or len(inits[0].targets) != 1 or not isinstance(inits[0].targets[0], ast.Name):
+            continue
+        v = inits[0].value
+        empty = (isinstance(v, ast.Dict) and not v.keys) or (isinstance(v, ast.Call) and call_name(v) in ('dict', 'collections.OrderedDict', 'OrderedDict')
+                                                             and not v.args and not v.keywords)
+        if not empty or not fi.cfg.dominates(inits[0], lp):
+            continue
+        clean = True
+        for n in walk_local(fn):
+            if not (isinstance(n, ast.Name) and n.id == name) or n is base or n is inits[0].targets[0]:
+                continue
+            par = parent.get(n)
+            gp = parent.get(par)
+            if isinstance(par, ast.Subscript) and par.value is n and isinstance(par.ctx, ast.Load):
+                continue
+            if isinstance(par, ast.Attribute) and par.value is n and par.attr in ('get', 'items', 'keys', 'values') and \
+                    isinstance(gp, ast.Call) and gp.func is par:
+                continue
+            clean = False
+        if clean:
+            yield lp, src, base, name, inits[0]
+
+
+# ---- options of the (de)serialiser calls that change the REPRESENTATION of what is written / read back.
+# Positional parameter lists of the library functions (scipy.io.mmwrite / mmread, numpy.savetxt / loadtxt, pickle.dump / load).
+_IO_SIGS = {
+    'mmwrite': ('target', 'a', 'comment', 'field', 'precision', 'symmetry'),
+    'mmread': ('source',),
+    'savetxt': ('fname', 'X', 'fmt', 'delimiter', 'newline', 'header', 'footer', 'comments', 'encoding'),
+    'loadtxt': ('fname', 'dtype', 'comments', 'delimiter', 'converters', 'skiprows', 'usecols', 'unpack', 'ndmin', 'encoding', 'max_rows'),
+    'dump': ('obj', 'file', 'protocol'),
+    'load': ('file',),
+}
+# parameters that name the file / the data (decided by C16.D3.save-load.pairs) or that cannot change the values
+_IO_NEUTRAL = {
+    'mmwrite': ('target', 'a', 'comment'), 'mmread': ('source',),
+    'savetxt': ('fname', 'X', 'header', 'footer', 'encoding'), 'loadtxt': ('fname', 'ndmin', 'encoding'),
+    'dump': ('obj', 'file', 'protocol', 'fix_imports'), 'load': ('file', 'fix_imports'),
+}
+_FLOAT_TYPES = ('float', 'np.float64', 'numpy.float64', 'np.double', 'numpy.double', 'np.float_', 'np.longdouble', "'float64'", "'f8'",
+                "'d'", "'float'", "'<f8'")
+_LOSSY_TYPES = ('int', 'bool', 'np.int32', 'np.int64', 'np.intp', 'np.int_', 'np.uint8', 'np.uint32', 'np.uint64', 'np.float32',
+                'np.float16', 'np.single', 'np.half', 'np.bool_', "'int'", "'i4'", "'i8'", "'f4'", "'f2'", "'float32'", "'int64'",
+                "'int32'", "'float16'", "'bool'", "'i'", "'f'", "'l'")
+
+
+def _fmt_roundtrips(fmt):
+    """True / False for a printf format of ONE float64 whose text reads back
+    as the same float64 / as another one; None if not understood."""
+    import re
+    if not isinstance(fmt, str):
+        return None
+    m = re.fullmatch(r'%[-+ #0]*\d*(?:\.(\d+))?([a-zA-Z])', fmt)
+    if not m:
+        return None
+    prec, conv = m.group(1), m.group(2)
+    if conv in 'diouxXc':
+        return False                    # integer conversions truncate
+    if conv == 'r':
+        return True
+    if conv == 's':
+        return prec is None             # str(float64) is the shortest round-tripping repr; a precision cuts it
+    p = 6 if prec is None else int(prec)
+    if conv in 'eE':
+        return p >= 16                  # 1 + p significant digits
+    if conv in 'gG':
+        return p >= 17
+    if conv in 'fF':
+        return False                    # fixed number of decimals: small values lose all their digits
+    return None
+
+
+def _io_option(fam, name, value, fi):
+    """(verdict, why) for one option of a (de)serialiser call: 'match' -
+    the values written / read are unchanged by it; 'near' - it definitely
+    stores / returns other values for some model; 'far' - not decided."""
+    e = fi.expand(value)
+    lit = const_value(e, default=Ellipsis)
+    is_none = isinstance(e, ast.Constant) and e.value is None
+    txt = _cx(e)
+    if name in _IO_NEUTRAL.get(fam, ()):
+        return 'match', ''
+    if fam == 'mmwrite':
+        if name == 'field':
+            if is_none or lit == 'real':
+                return 'match', ''
+            if lit in ('integer', 'pattern'):
+                return 'near', ("field=%r makes the Matrix Market writer store %s: counts / probabilities are real numbers (a symmetrising "
+                                "builder returns (C + C^T)/2, prior counts are fractional), so the matrix read back differs from the one saved"
+                                % (lit, 'every entry truncated to an integer' if lit == 'integer' else 'only the sparsity pattern'))
+            return 'far', 'field=%s' % txt
+        if name == 'precision':
+            if is_none:
+                return 'match', ''
+            if isinstance(lit, int) and not isinstance(lit, bool):
+                return ('match', '') if lit >= 16 else ('near', 'precision=%d writes fewer significant digits than a float64 needs to round-trip (17)' % lit)
+            return 'far', 'precision=%s' % txt
+        if name == 'symmetry':
+            if is_none or (isinstance(lit, str) and lit.lower() in ('general', 'auto')):
+                return 'match', ''
+            if isinstance(lit, str) and lit.lower() in ('symmetric', 'skew-symmetric', 'hermitian'):
+                return 'near', ('symmetry=%r stores one triangle only: transition counts / probabilities are not symmetric in general, '
+                                'the other triangle is lost' % lit)
+            return 'far', 'symmetry=%s' % txt
+    if fam == 'mmread':
+        if name == 'spmatrix':
+            return 'match', ''          # container class only (MSM.__eq__ coerces)
+    if fam == 'savetxt':
+        if name == 'fmt':
+            rt = _fmt_roundtrips(lit) if isinstance(lit, str) else None
+            if rt is None:
+                return 'far', 'fmt=%s' % txt
+            return ('match', '') if rt else ('near', 'fmt=%r does not write the 17 significant digits a float64 needs to round-trip' % lit)
+        if name == 'delimiter':
+            return ('match', '') if lit == ' ' else ('far', 'delimiter=%s' % txt)
+        if name == 'newline':
+            return ('match', '') if lit == '\n' else ('far', 'newline=%s' % txt)
+        if name == 'comments':
+            return ('match', '') if lit == '# ' or lit == '#' else ('far', 'comments=%s' % txt)
+    if fam == 'loadtxt':
+        if name == 'dtype':
+            if is_none or txt in _FLOAT_TYPES:
+                return 'match', ''
+            if txt in _LOSSY_TYPES:
+                return 'near', 'dtype=%s converts the float64 values that were written to a narrower type' % txt
+            return 'far', 'dtype=%s' % txt
+        if name == 'comments':
+            return ('match', '') if lit == '#' or lit == '# ' else ('far', 'comments=%s' % txt)
+        if name == 'delimiter':
+            return ('match', '') if is_none or lit == ' ' else ('far', 'delimiter=%s' % txt)
+        if name == 'skiprows':
+            if lit == 0 and not isinstance(lit, bool):
+                return 'match', ''
+            if isinstance(lit, int) and not isinstance(lit, bool) and lit > 0:
+                return 'far', 'skiprows=%d (rows are dropped unless save writes as many extra lines)' % lit
+            return 'far', 'skiprows=%s' % txt
+        if name == 'unpack':
+            return ('match', '') if lit is False else ('far', 'unpack=%s' % txt)
+        if name == 'max_rows':
+            return ('match', '') if is_none else ('far', 'max_rows=%s' % txt)
+        if name in ('converters', 'usecols'):
+            return ('match', '') if is_none else ('far', '%s=%s' % (name, txt))
+    if fam in ('dump', 'load'):
+        if name in ('encoding', 'errors', 'buffers', 'buffer_callback'):
+            return ('match', '') if is_none or name in ('encoding', 'errors') else ('far', '%s=%s' % (name, txt))
+    return 'far', '%s=%s' % (name, txt)
+
+
+def _io_options(ck, rule, mod, fi, qual, key, call):
+    """Every argument of a located writer / reader call, beyond the file and
+    the data, is one the rule knows to leave the stored values unchanged."""
+    fam = _last(call)
+    sig = _IO_SIGS.get(fam)
+    if sig is None:
+        return
+    b = bind_args(call, sig)
+    if b is None:
+        ck.missing(rule, 'arguments of %s cannot be bound statically' % _short(call))
+        return
+    vs, whys = [], []
+    for name, value in b.items():
+        v, why = _io_option(fam, name, value, fi)
+        vs.append(v)
+        if v != 'match':
+            whys.append((v, why))
+    verdict = _worst(*vs) if vs else 'match'
+    why = '; '.join(w for v, w in whys if v == verdict)
+    opts = ', '.join('%s=%s' % (n, _short(fi.xu(x), 30)) for n, x in b.items() if n not in _IO_NEUTRAL.get(fam, ())[:2])
+    ck.decide(verdict, rule, mod, call, qual, '%s: %s(%s)' % (key, fam, opts),
+              'no option of the %s call changes the values that are %s' % (fam, 'written' if qual.endswith('save') else 'read back'),
+              '`%s`: %s - MSM.load(save(m)) is then not equal to m' % (_short(call, 100), why) if verdict == 'near' else
+              'option of `%s` not recognised (%s)' % (_short(call, 100), why))
+
+
 def d3_saveload(ck, mod):
     rule = 'C16.D3.save-load'
     save, load = mod.func('MSM.save'), mod.func('MSM.load')
@@ -725,14 +942,23 @@ def d3_saveload(ck, mod):
     if not (isinstance(sj, ast.Assign) and len(sj.targets) == 1 and isinstance(sj.targets[0], ast.Name)):
         ck.missing(rule, 'manifest read with json.load in load')
         return
+    # def-use, not names: a use denotes the manifest iff every definition that reaches it (through plain copies) is
+    # the json.load statement or a recognised key-preserving re-mapping of the manifest
     PM = {sj.targets[0].id}
+    sites = {sj}
+    ready = {}          # definition site -> statement that must dominate a read (the filling loop of a dict built by a loop)
     remapped = set()    # id() of the manifest uses inside a recognised key-preserving re-mapping
-    remaps = set()
+
+    def is_manifest(n, at=None):
+        o = origins(fl, n)
+        if not o or not all(d in sites for d, _ in o):
+            return False
+        return all(d not in ready or (at is not None and fl.cfg.dominates(ready[d], at)) for d, _ in o)
     grew = True
     while grew:
         grew = False
         for s in walk_local(load):
-            if not (isinstance(s, ast.Assign) and len(s.targets) == 1 and isinstance(s.targets[0], ast.Name)) or id(s) in remaps:
+            if not (isinstance(s, ast.Assign) and len(s.targets) == 1 and isinstance(s.targets[0], ast.Name)) or s in sites:
                 continue
             v = s.value
             key = gen = None
@@ -745,16 +971,24 @@ def d3_saveload(ck, mod):
                 continue
             it, tg = gen.iter, gen.target
             if isinstance(it, ast.Call) and isinstance(it.func, ast.Attribute) and it.func.attr == 'items' and \
-                    isinstance(it.func.value, ast.Name) and it.func.value.id in PM and isinstance(tg, ast.Tuple) and \
+                    isinstance(it.func.value, ast.Name) and is_manifest(it.func.value, s) and isinstance(tg, ast.Tuple) and \
                     len(tg.elts) == 2 and isinstance(key, ast.Name) and u(key) == u(tg.elts[0]):
                 PM.add(s.targets[0].id)
                 remapped.add(id(it.func.value))
-                remaps.add(id(s))
+                sites.add(s)
+                grew = True
+        # the same re-mapping spelled as a loop: `D2 = {}` ; `for k, v in M.items(): D2[k] = <expr>` (or `for k in M`)
+        for lp, src, base, name, init in _keyed_copy_loops(load, fl, lambda n, lp: is_manifest(n, lp)):
+            if init not in sites:
+                PM.add(name)
+                remapped.update((id(src), id(base)))
+                sites.add(init)
+                ready[init] = lp
                 grew = True
     read = {}           # key -> [Subscript nodes]
     for x in walk_local(load):
-        if isinstance(x, ast.Subscript) and isinstance(x.value, ast.Name) and x.value.id in PM and isinstance(const_value(x.slice), str) \
-                and isinstance(x.ctx, ast.Load):
+        if isinstance(x, ast.Subscript) and isinstance(x.value, ast.Name) and isinstance(const_value(x.slice), str) \
+                and isinstance(x.ctx, ast.Load) and x.value.id in PM and is_manifest(x.value, fl.stmt(x)):
             read.setdefault(const_value(x.slice), []).append(x)
 
     # A declared key that is not seen written (read) is a violation only if the
@@ -904,6 +1138,7 @@ def d3_saveload(ck, mod):
         # writer
         w = written.get(k)
         vw = 'far'
+        io_calls = []       # located (function, FuncInfo, call) of the writer and of the reader(s)
         if w is not None:
             if k == 'mapping_':
                 acc = lambda c: isinstance(c.func, ast.Attribute) and c.func.attr in ('write', 'save') and fs.xu(c.func.value) == attr
@@ -912,6 +1147,7 @@ def d3_saveload(ck, mod):
             vw = _pair_verdict(w[1], acc)
             if vw == 'match' and k != 'mapping_':
                 wc = [c for c in w[1] if acc(c)][0]
+                io_calls.append(('MSM.save', fs, wc))
                 data = arg_or_kw(wc, dpos, dkw)
                 if data is None:
                     vw = 'far'
@@ -930,6 +1166,8 @@ def d3_saveload(ck, mod):
             if v1 == 'match':
                 rc = [c for c in cs if acc(c)][0]
                 rs = fl.stmt(rc)
+                if k != 'mapping_':
+                    io_calls.append(('MSM.load', fl, rc))
                 if k == 'config':
                     # the unpickled dict is what the constructor is called with
                     if cfgname is None:
@@ -971,6 +1209,9 @@ def d3_saveload(ck, mod):
                   '`%s` must be written with %s(%s) and read back with %s into msm.%s (writer: %s, reader: %s)' % (
                       k, wfn, attr, rfn, k, {'match': 'ok', 'near': 'differs', 'far': 'not recognised'}[vw],
                       {'match': 'ok', 'near': 'differs', 'far': 'not recognised'}[vr]))
+        # representation: no option of the located writer / reader changes the values (field=, fmt=, dtype= ...)
+        for qual, f_i, call in io_calls:
+            _io_options(ck, rule + '.representation', mod, f_i, qual, k, call)
     # ---- precision of the probabilities
     w = written.get('tprobs_')
     if w:
